@@ -356,7 +356,12 @@ def _named(chk, rule="SERIAL.named"):
     back from deserialisation labelled with its own values.  Every function that returns such an array names it."""
     pm = chk.pm
     ser = pm.cls("xeofs.preprocessing.transformer.Transformer").methods.get("_serialize_data")
-    chk.require(ser is not None and "name in" in norm(ser.node) and ".coords" in norm(ser.node),
+    def _by_name(fn):
+        return fn is not None and any(isinstance(n, ast.Compare) and len(n.ops) == 1 and isinstance(n.ops[0], (ast.In, ast.NotIn))
+                                      and isinstance(n.left, ast.Attribute) and n.left.attr == "name"
+                                      and isinstance(n.comparators[0], ast.Attribute) and n.comparators[0].attr == "coords" for n in walk_no_nested(fn.node))
+
+    chk.require(_by_name(ser),
                 "Transformer._serialize_data no longer tells coordinates from variables by `name in coords` (re-read the rule)")
     n = 0
     for fn in pm.all_functions():
